@@ -6,7 +6,7 @@ Local Open Scope N_scope.
 
 Inductive wsys_step_obs := WSysStep (who : N * N) (a : caction) (observed : list dmsg).
 
-Definition wsys_case : Type := nat * nat * nat * nat * list wsys_step_obs.
+Definition wsys_case : Type := nat * nat * nat * nat * acl_mode * list N * list wsys_step_obs.
 
 Definition files_eqb (a b : list (N * (nat * nat))) : bool :=
   perm_eqb (fun x y => N.eqb (fst x) (fst y) && Nat.eqb (fst (snd x)) (fst (snd y)) && Nat.eqb (snd (snd x)) (snd (snd y))) a b.
@@ -45,13 +45,13 @@ Definition drop_err2 (l : list dmsg) : list dmsg :=
   filter (fun m => match m with DErr _ _ 2 => false | _ => true end) l.
 
 Definition ws_sys_code_gen (lenient2 cut answer_empty : bool) (c : wsys_case) : N :=
-  let '(sw, k, max_scrape, max_offers, steps) := c in
+  let '(sw, k, max_scrape, max_offers, mode, acl, steps) := c in
   let cfg := mkWcfg max_offers max_scrape 1000 1000 in
   let fix go (i : N) (y : wsys) (l : list wsys_step_obs) : N :=
     match l with
     | [] => 0
     | WSysStep who a observed :: t =>
-        match wsys_step cfg cut answer_empty k y who a with
+        match wsys_gate mode acl cfg cut answer_empty k y who a with
         | Panic => N.succ i
         | Ok (y', model) =>
             let keys := who :: map sc_key (y_conns y) ++ map sc_key (y_conns y') in
